@@ -11,6 +11,10 @@ GLOBAL_APIS = {
     "std::sync::Once::call_once", "std::sync::OnceLock::get_or_init", "std::sync::OnceLock::set", "std::sync::LazyLock::force",
     "std::thread::LocalKey::with", "std::thread::LocalKey::set", "std::thread::LocalKey::get", "std::thread::LocalKey::replace", "std::thread::LocalKey::take", "std::thread::LocalKey::with_borrow", "std::thread::LocalKey::with_borrow_mut",
     "std::thread::current", "std::thread::ThreadId::as_u64",
+    # an explicitly taken guard of a process-wide stream lock (not the momentary one inside
+    # eprintln! / writeln!): whatever runs while it is held - a callback of this store - stalls
+    # every other store that reports to the same stream
+    "std::io::Stderr::lock", "std::io::Stdout::lock", "std::io::Stdin::lock",
 }
 ALLOWED_THIRD_PARTY = (
     "crossbeam::crossbeam_channel::bounded",
